@@ -509,6 +509,7 @@ impl Function {
                 | Function::Day
                 | Function::Month
                 | Function::Year
+                | Function::DayOfWeek
                 | Function::Abs
                 | Function::Power
                 | Function::Sqrt
